@@ -4,12 +4,15 @@ namespace PqModel.Search
 
 abbrev Bound := Option Int   -- none = null page bound
 
-/-- CompareNullsLast(Int compare) < 0; the probe is never null -/
-def ltNL (a b : Bound) : Bool :=
+/-- `cmp(a, b) < 0` where `cmp` is `CompareNullsLast(typ.Compare)` (`nf = false`, what `Search` uses) or
+    `CompareNullsFirst(typ.Compare)` (`nf = true`, the example of `Find`'s doc comment), compare.go:20-57;
+    the probe is never null -/
+def ltNL (nf : Bool) (a b : Bound) : Bool :=
   match a, b with
   | some x, some y => decide (x < y)
-  | some _, none => true
-  | none, _ => false
+  | some _, none => !nf
+  | none, some _ => nf
+  | none, none => false
 
 structure Index where
   mins : List Bound
@@ -19,29 +22,29 @@ def Index.n (ix : Index) : Nat := ix.mins.length
 def minAt (ix : Index) (i : Nat) : Bound := ix.mins.getD i none
 def maxAt (ix : Index) (i : Nat) : Bound := ix.maxs.getD i none
 
-def contains (ix : Index) (i : Nat) (v : Int) : Bool :=
-  !(ltNL (some v) (minAt ix i)) && !(ltNL (maxAt ix i) (some v))
+def contains (nf : Bool) (ix : Index) (i : Nat) (v : Int) : Bool :=
+  !(ltNL nf (some v) (minAt ix i)) && !(ltNL nf (maxAt ix i) (some v))
 
-def bloop (ix : Index) (v : Int) : Nat → Nat → Nat → Nat
+def bloop (nf : Bool) (ix : Index) (v : Int) : Nat → Nat → Nat → Nat
   | 0, cur, _ => cur
   | fuel + 1, cur, top =>
     if cur < top then
       let next := (top - cur) / 2 + cur
-      if ltNL (some v) (minAt ix next) then bloop ix v fuel cur next
-      else if ltNL (maxAt ix next) (some v) then bloop ix v fuel (next + 1) top
-      else bloop ix v fuel cur next
+      if ltNL nf (some v) (minAt ix next) then bloop nf ix v fuel cur next
+      else if ltNL nf (maxAt ix next) (some v) then bloop nf ix v fuel (next + 1) top
+      else bloop nf ix v fuel cur next
     else cur
 
-def binarySearch (ix : Index) (v : Int) : Nat :=
-  let c := bloop ix v ix.n 0 ix.n
+def binarySearch (nf : Bool) (ix : Index) (v : Int) : Nat :=
+  let c := bloop nf ix v ix.n 0 ix.n
   if c < ix.n then
-    if ltNL (some v) (minAt ix c) || ltNL (maxAt ix c) (some v) then ix.n else c
+    if ltNL nf (some v) (minAt ix c) || ltNL nf (maxAt ix c) (some v) then ix.n else c
   else c
 
 -- the defect on the unchanged code (F1): ascending index with a null page in the middle
 def f1 : Index := { mins := [some (-5), none, some 7], maxs := [some (-3), none, some 9] }
-example : contains f1 2 8 = true := by decide
-example : binarySearch f1 8 = 3 := by decide
+example : contains false f1 2 8 = true := by decide
+example : binarySearch false f1 8 = 3 := by decide
 
 /-! ### correctness without null pages -/
 
@@ -53,16 +56,16 @@ structure Ascending (ix : Index) (mn mx : Nat → Int) : Prop where
   smax : ∀ i j, i ≤ j → j < ix.n → mx i ≤ mx j
   le : ∀ i, i < ix.n → mn i ≤ mx i
 
-theorem contains_iff {ix mn mx} (h : Ascending ix mn mx) {i : Nat} (hi : i < ix.n) (v : Int) :
-    contains ix i v = true ↔ mn i ≤ v ∧ v ≤ mx i := by
+theorem contains_iff (nf : Bool) {ix mn mx} (h : Ascending ix mn mx) {i : Nat} (hi : i < ix.n) (v : Int) :
+    contains nf ix i v = true ↔ mn i ≤ v ∧ v ≤ mx i := by
   simp [contains, h.mins i hi, h.maxs i hi, ltNL]
 
 /-- loop invariant: everything left of `cur` is strictly below `v`; `top` is either the end or a page with v ≤ max;
     everything from `top` on with v < min top is above. -/
-theorem bloop_spec {ix mn mx} (h : Ascending ix mn mx) (v : Int) :
+theorem bloop_spec (nf : Bool) {ix mn mx} (h : Ascending ix mn mx) (v : Int) :
     ∀ (fuel cur top : Nat), top - cur ≤ fuel → cur ≤ top → top ≤ ix.n →
       (∀ i, i < cur → mx i < v) → (top < ix.n → v ≤ mx top) →
-      let c := bloop ix v fuel cur top
+      let c := bloop nf ix v fuel cur top
       c ≤ ix.n ∧ (∀ i, i < c → mx i < v) ∧ (c < ix.n → v ≤ mx c)
   | 0, cur, top, hf, hct, htn, hl, hr => by
     have : cur = top := by omega
@@ -78,22 +81,22 @@ theorem bloop_spec {ix mn mx} (h : Ascending ix mn mx) (v : Int) :
       generalize hN : (top - cur) / 2 + cur = next at *
       rw [h.mins next hnn, h.maxs next hnn]
       by_cases h1 : v < mn next
-      · have e1 : ltNL (some v) (some (mn next)) = true := by simp [ltNL, h1]
+      · have e1 : ltNL nf (some v) (some (mn next)) = true := by simp [ltNL, h1]
         simp only [e1, if_true]
         have hmm : mn next ≤ mx next := h.le next hnn
-        exact bloop_spec h v fuel cur next (by omega) hge (by omega) hl (fun _ => by omega)
-      · have e1 : ltNL (some v) (some (mn next)) = false := by simp [ltNL]; omega
+        exact bloop_spec nf h v fuel cur next (by omega) hge (by omega) hl (fun _ => by omega)
+      · have e1 : ltNL nf (some v) (some (mn next)) = false := by simp [ltNL]; omega
         simp only [e1]
         by_cases h2 : mx next < v
-        · have e2 : ltNL (some (mx next)) (some v) = true := by simp [ltNL, h2]
+        · have e2 : ltNL nf (some (mx next)) (some v) = true := by simp [ltNL, h2]
           simp only [e2, if_true, Bool.false_eq_true, if_false]
-          refine bloop_spec h v fuel (next + 1) top (by omega) (by omega) htn ?_ hr
+          refine bloop_spec nf h v fuel (next + 1) top (by omega) (by omega) htn ?_ hr
           intro i hi
           have := h.smax i next (by omega) hnn
           omega
-        · have e2 : ltNL (some (mx next)) (some v) = false := by simp [ltNL]; omega
+        · have e2 : ltNL nf (some (mx next)) (some v) = false := by simp [ltNL]; omega
           simp only [e2, Bool.false_eq_true, if_false]
-          exact bloop_spec h v fuel cur next (by omega) hge (by omega) hl (fun _ => by omega)
+          exact bloop_spec nf h v fuel cur next (by omega) hge (by omega) hl (fun _ => by omega)
     · simp only [hlt, if_false]
       have : cur = top := by omega
       subst this
@@ -101,13 +104,13 @@ theorem bloop_spec {ix mn mx} (h : Ascending ix mn mx) (v : Int) :
 
 
 /-- C06 core (no null pages): binarySearch returns the first page whose bounds contain `v`, or `n`. -/
-theorem binarySearch_first {ix mn mx} (h : Ascending ix mn mx) (v : Int) :
-    binarySearch ix v ≤ ix.n ∧
-    (binarySearch ix v < ix.n → contains ix (binarySearch ix v) v = true) ∧
-    (∀ i, i < ix.n → contains ix i v = true → binarySearch ix v ≤ i) := by
-  have hs := bloop_spec h v ix.n 0 ix.n (by omega) (by omega) (Nat.le_refl _) (by intro i hi; omega) (by intro hh; omega)
+theorem binarySearch_first (nf : Bool) {ix mn mx} (h : Ascending ix mn mx) (v : Int) :
+    binarySearch nf ix v ≤ ix.n ∧
+    (binarySearch nf ix v < ix.n → contains nf ix (binarySearch nf ix v) v = true) ∧
+    (∀ i, i < ix.n → contains nf ix i v = true → binarySearch nf ix v ≤ i) := by
+  have hs := bloop_spec nf h v ix.n 0 ix.n (by omega) (by omega) (Nat.le_refl _) (by intro i hi; omega) (by intro hh; omega)
   simp only at hs
-  generalize hc : bloop ix v ix.n 0 ix.n = c at hs
+  generalize hc : bloop nf ix v ix.n 0 ix.n = c at hs
   obtain ⟨hcn, hleft, hright⟩ := hs
   unfold binarySearch
   simp only [hc]
@@ -116,27 +119,27 @@ theorem binarySearch_first {ix mn mx} (h : Ascending ix mn mx) (v : Int) :
     rw [h.mins c hlt, h.maxs c hlt]
     have hvm := hright hlt
     by_cases h1 : v < mn c
-    · have e1 : ltNL (some v) (some (mn c)) = true := by simp [ltNL, h1]
+    · have e1 : ltNL nf (some v) (some (mn c)) = true := by simp [ltNL, h1]
       simp only [e1, Bool.true_or, if_true]
       refine ⟨Nat.le_refl _, by omega, ?_⟩
       intro i hi hcon
-      have := (contains_iff h hi v).mp hcon
+      have := (contains_iff nf h hi v).mp hcon
       by_cases hic : i < c
       · have := hleft i hic; omega
       · have := h.smin c i (by omega) hi; omega
-    · have e1 : ltNL (some v) (some (mn c)) = false := by simp [ltNL]; omega
-      have e2 : ltNL (some (mx c)) (some v) = false := by simp [ltNL]; omega
+    · have e1 : ltNL nf (some v) (some (mn c)) = false := by simp [ltNL]; omega
+      have e2 : ltNL nf (some (mx c)) (some v) = false := by simp [ltNL]; omega
       simp only [e1, e2, Bool.or_self, Bool.false_eq_true, if_false]
-      refine ⟨hcn, fun _ => (contains_iff h hlt v).mpr ⟨by omega, hvm⟩, ?_⟩
+      refine ⟨hcn, fun _ => (contains_iff nf h hlt v).mpr ⟨by omega, hvm⟩, ?_⟩
       intro i hi hcon
-      have := (contains_iff h hi v).mp hcon
+      have := (contains_iff nf h hi v).mp hcon
       by_cases hic : i < c
       · have := hleft i hic; omega
       · omega
   · simp only [hlt, if_false]
     refine ⟨hcn, fun hh => hh.elim, ?_⟩
     intro i hi hcon
-    have := (contains_iff h hi v).mp hcon
+    have := (contains_iff nf h hi v).mp hcon
     have := hleft i (by omega)
     omega
 
@@ -146,27 +149,27 @@ theorem binarySearch_first {ix mn mx} (h : Ascending ix mn mx) (v : Int) :
 /-! ### linear search, dispatch, and the writer-side index (column_index.go, order_purego.go) -/
 
 /-- `cmp(a, b) <= 0` under CompareNullsLast -/
-def leNL (a b : Bound) : Bool := !(ltNL b a)
+def leNL (nf : Bool) (a b : Bound) : Bool := !(ltNL nf b a)
 
 /-- search.go `linearSearch` -/
-def lloop (ix : Index) (v : Int) : Nat → Nat → Nat
+def lloop (nf : Bool) (ix : Index) (v : Int) : Nat → Nat → Nat
   | 0, i => i
   | fuel + 1, i =>
     if i < ix.n then
-      if leNL (minAt ix i) (some v) && leNL (some v) (maxAt ix i) then i else lloop ix v fuel (i + 1)
+      if leNL nf (minAt ix i) (some v) && leNL nf (some v) (maxAt ix i) then i else lloop nf ix v fuel (i + 1)
     else i
 
-def linearSearch (ix : Index) (v : Int) : Nat := lloop ix v ix.n 0
+def linearSearch (nf : Bool) (ix : Index) (v : Int) : Nat := lloop nf ix v ix.n 0
 
 /-- search.go `Find` as it stands in /repo (see `hasNull` guard: fix of finding F1) -/
 def hasNull (ix : Index) : Bool := ix.mins.any Option.isNone || ix.maxs.any Option.isNone
 
-def find (asc : Bool) (ix : Index) (v : Int) : Nat :=
-  if asc && !hasNull ix then binarySearch ix v else linearSearch ix v
+def find (nf : Bool) (asc : Bool) (ix : Index) (v : Int) : Nat :=
+  if asc && !hasNull ix then binarySearch nf ix v else linearSearch nf ix v
 
 /-- `Find` before the F1 repair: binary search whenever the index claims ascending order -/
-def findUnguarded (asc : Bool) (ix : Index) (v : Int) : Nat :=
-  if asc then binarySearch ix v else linearSearch ix v
+def findUnguarded (nf : Bool) (asc : Bool) (ix : Index) (v : Int) : Nat :=
+  if asc then binarySearch nf ix v else linearSearch nf ix v
 
 /-- order_purego.go `orderOf`: +1 ascending, -1 descending, 0 otherwise (length ≤ 1 gives 0) -/
 def isAsc : List Int → Bool
@@ -194,14 +197,14 @@ def writerOrder (z : Int) (ix : Index) : Nat := boundaryOrder (ix.mins.map (stor
 
 /-! ### linear search is correct for every index; the dispatch never misses -/
 
-theorem lloop_test_eq (ix : Index) (v : Int) (i : Nat) :
-    (leNL (minAt ix i) (some v) && leNL (some v) (maxAt ix i)) = contains ix i v := rfl
+theorem lloop_test_eq (nf : Bool) (ix : Index) (v : Int) (i : Nat) :
+    (leNL nf (minAt ix i) (some v) && leNL nf (some v) (maxAt ix i)) = contains nf ix i v := rfl
 
 /-- `lloop` started at `i` returns the first page at or after `i` whose bounds contain `v`, else `n` -/
-theorem lloop_spec (ix : Index) (v : Int) : ∀ (fuel i : Nat), ix.n - i ≤ fuel → i ≤ ix.n →
-    i ≤ lloop ix v fuel i ∧ lloop ix v fuel i ≤ ix.n ∧
-    (lloop ix v fuel i < ix.n → contains ix (lloop ix v fuel i) v = true) ∧
-    (∀ j, i ≤ j → j < lloop ix v fuel i → contains ix j v = false)
+theorem lloop_spec (nf : Bool) (ix : Index) (v : Int) : ∀ (fuel i : Nat), ix.n - i ≤ fuel → i ≤ ix.n →
+    i ≤ lloop nf ix v fuel i ∧ lloop nf ix v fuel i ≤ ix.n ∧
+    (lloop nf ix v fuel i < ix.n → contains nf ix (lloop nf ix v fuel i) v = true) ∧
+    (∀ j, i ≤ j → j < lloop nf ix v fuel i → contains nf ix j v = false)
   | 0, i, hf, hi => by
     have : i = ix.n := by omega
     subst this
@@ -211,12 +214,12 @@ theorem lloop_spec (ix : Index) (v : Int) : ∀ (fuel i : Nat), ix.n - i ≤ fue
     simp only [lloop]
     by_cases hlt : i < ix.n
     · rw [if_pos hlt, lloop_test_eq]
-      by_cases hc : contains ix i v = true
+      by_cases hc : contains nf ix i v = true
       · rw [if_pos hc]
         exact ⟨Nat.le_refl _, hi, fun _ => hc, fun j h1 h2 => by omega⟩
       · rw [if_neg hc]
-        have hc' : contains ix i v = false := by simpa using hc
-        obtain ⟨h1, h2, h3, h4⟩ := lloop_spec ix v fuel (i + 1) (by omega) (by omega)
+        have hc' : contains nf ix i v = false := by simpa using hc
+        obtain ⟨h1, h2, h3, h4⟩ := lloop_spec nf ix v fuel (i + 1) (by omega) (by omega)
         refine ⟨by omega, h2, h3, ?_⟩
         intro j hj1 hj2
         by_cases hji : j = i
@@ -225,15 +228,15 @@ theorem lloop_spec (ix : Index) (v : Int) : ∀ (fuel i : Nat), ix.n - i ≤ fue
     · rw [if_neg hlt]
       exact ⟨Nat.le_refl _, hi, fun h => absurd h hlt, fun j h1 h2 => by omega⟩
 
-theorem linearSearch_first (ix : Index) (v : Int) :
-    linearSearch ix v ≤ ix.n ∧
-    (linearSearch ix v < ix.n → contains ix (linearSearch ix v) v = true) ∧
-    (∀ i, i < ix.n → contains ix i v = true → linearSearch ix v ≤ i) := by
-  obtain ⟨_, h2, h3, h4⟩ := lloop_spec ix v ix.n 0 (by omega) (by omega)
+theorem linearSearch_first (nf : Bool) (ix : Index) (v : Int) :
+    linearSearch nf ix v ≤ ix.n ∧
+    (linearSearch nf ix v < ix.n → contains nf ix (linearSearch nf ix v) v = true) ∧
+    (∀ i, i < ix.n → contains nf ix i v = true → linearSearch nf ix v ≤ i) := by
+  obtain ⟨_, h2, h3, h4⟩ := lloop_spec nf ix v ix.n 0 (by omega) (by omega)
   refine ⟨h2, h3, ?_⟩
   intro i hi hc
   unfold linearSearch
-  cases Nat.lt_or_ge i (lloop ix v ix.n 0) with
+  cases Nat.lt_or_ge i (lloop nf ix v ix.n 0) with
   | inl hlt => have := h4 i (by omega) hlt; simp [this] at hc
   | inr hge => exact hge
 
